@@ -283,6 +283,38 @@ fn main() {
                 });
                 break;
             }
+            // ---- C04: the serialised e-graph and the read API describe the same rows ----
+            if prop == "C04" {
+                let ser = eg.serialize(egglog::SerializeConfig::default());
+                let mut per_op: BTreeMap<String, usize> = BTreeMap::new();
+                let mut ser_classes: HashSet<String> = HashSet::new();
+                for (_id, node) in ser.egraph.nodes.iter() {
+                    *per_op.entry(node.op.clone()).or_insert(0) += 1;
+                    if p.decls.iter().any(|dd| dd.kind == Kind::Ctor && dd.name == node.op) {
+                        ser_classes.insert(format!("{}", node.eclass));
+                    }
+                }
+                let mut dump_classes: HashSet<V> = HashSet::new();
+                let mut bad: Option<String> = None;
+                for (f, dd) in p.decls.iter().enumerate() {
+                    let n_ser = per_op.get(&dd.name).copied().unwrap_or(0);
+                    if n_ser != d.tables[f].len() {
+                        bad = Some(format!("serialize has {} nodes for {} but the read API has {} rows", n_ser, dd.name, d.tables[f].len()));
+                    }
+                    if dd.kind == Kind::Ctor {
+                        for r in &d.tables[f] {
+                            dump_classes.insert(r.ret.clone());
+                        }
+                    }
+                }
+                if bad.is_none() && ser_classes.len() != dump_classes.len() {
+                    bad = Some(format!("serialize has {} e-classes of constructor nodes, the read API {}", ser_classes.len(), dump_classes.len()));
+                }
+                if let (Some(msg), true) = (bad, ser.is_complete()) {
+                    viols.push(Viol { what: format!("after command {k} `{}`: {msg}", ctext.replace('\n', " ")), key: "C04-serialize-disagrees".into(), program: text.clone(), at: k });
+                    break;
+                }
+            }
             let ob = d.observe(&probes, &iprobes);
             if let Some(en) = eg_naive.as_mut() {
                 let (rn, pn) = step(en, &ctext);
@@ -307,6 +339,45 @@ fn main() {
                     Err(e) => {
                         viols.push(Viol { what: format!("naive engine dump failed: {e}"), key: "dump-failed".into(), program: text.clone(), at: k });
                         break;
+                    }
+                }
+            }
+            // ---- C01: (check ..) and extraction as independent observers of equality ----
+            if prop == "C01" && ok {
+                let mut rr = Rng::for_case(o.seed ^ 0xC01, (ci * 100 + k) as u64);
+                let repr: Vec<usize> = (0..probes.len()).filter(|i| ob.classes[*i] >= 0).collect();
+                for _ in 0..4 {
+                    if repr.len() < 2 {
+                        break;
+                    }
+                    let (a, b) = (*rr.pick(&repr), *rr.pick(&repr));
+                    let (res, pan) = step(&mut eg, &format!("(check (= {} {}))", p.pat_text(&probes[a]), p.pat_text(&probes[b])));
+                    let same = ob.classes[a] == ob.classes[b];
+                    if pan || res.is_ok() != same {
+                        viols.push(Viol {
+                            what: format!("after command {k}: (check (= {} {})) {} but the table dump puts them in {} e-class",
+                                p.pat_text(&probes[a]), p.pat_text(&probes[b]), if res.is_ok() { "succeeds" } else { "fails" }, if same { "the same" } else { "different" }),
+                            key: "C01-check-disagrees-with-tables".into(), program: text.clone(), at: k });
+                        break;
+                    }
+                }
+                if let Some(&a) = repr.first() {
+                    // extraction lands in the class of the term it was asked for
+                    let a = if repr.len() > 1 { *rr.pick(&repr) } else { a };
+                    let (res, _) = step(&mut eg, &format!("(extract {})", p.pat_text(&probes[a])));
+                    if let Ok(outs) = res {
+                        for out in outs {
+                            if let egglog::CommandOutput::ExtractBest(dag, _c, t) = out {
+                                let txt = dag.to_string(t);
+                                // evaluate the printed term through (check (= term probe))
+                                let (r2, _) = step(&mut eg, &format!("(check (= {} {}))", txt, p.pat_text(&probes[a])));
+                                if r2.is_err() {
+                                    viols.push(Viol {
+                                        what: format!("after command {k}: (extract {}) returned {} which (check ..) does not place in the same class", p.pat_text(&probes[a]), txt),
+                                        key: "C01-extract-outside-class".into(), program: text.clone(), at: k });
+                                }
+                            }
+                        }
                     }
                 }
             }
